@@ -11,19 +11,19 @@ import (
 
 // GenConfig is the swarm configuration of the operation generator for one run.
 type GenConfig struct {
-	Repos     []string // valid repository names in play
-	BadRepos  []string // invalid names (only ever used for writes)
-	Tags      []string
-	MaxBlob   int
-	Weights   [NumKinds]int
-	BadPush   bool // pushes whose declared digest / size disagree with the content
+	Repos        []string // valid repository names in play
+	BadRepos     []string // invalid names (only ever used for writes)
+	Tags         []string
+	MaxBlob      int
+	Weights      [NumKinds]int
+	BadPush      bool // pushes whose declared digest / size disagree with the content
 	ContentFault bool // content readers that fail mid-stream
 	EmptyBlobMT  bool // PushBlob with an empty media type (only Digest and Size are documented as used)
-	AltAlgo   bool // sha512 / sha384 digests
-	HTTPSafe  bool // only calls HTTP carries faithfully (declared size = length, non-empty media types)
-	Stops     bool // listing consumers that decline early
-	Uploads   bool
-	SmallReads bool
+	AltAlgo      bool // sha512 / sha384 digests
+	HTTPSafe     bool // only calls HTTP carries faithfully (declared size = length, non-empty media types)
+	Stops        bool // listing consumers that decline early
+	Uploads      bool
+	SmallReads   bool
 	// Motifs: now and then a short scripted history with seeded parameters is woven
 	// into the random one (nested references with members deleted before tagging,
 	// references filled in after tagging ...): multi-step shapes a uniform draw of
@@ -530,7 +530,6 @@ func (g *Gen) dropLive(h int) {
 		}
 	}
 }
-
 
 // NextRead generates a read operation (GetBlob, GetBlobRange, GetManifest or GetTag)
 // without touching the generator's bookkeeping.
